@@ -394,7 +394,11 @@ func parseReply(c Cmd, stdout []byte, ids *IDMap) Reply {
 		r.Kind, r.ID, r.State, r.Claim = "set", ids.model(s("id")), s("state"), s("claimed_by")
 	case "claim_id", "claim":
 		r.Kind = "claim"
-		r.Status = s("status")
+		// the one status the specification knows for a claim is "nothing was ready"; any other
+		// word in that field (a later version may say "claimed") is wording, not state
+		if s("status") == "no_ready" {
+			r.Status = "no_ready"
+		}
 		r.ID, r.State, r.Claim, r.Epic = ids.model(s("id")), s("state"), s("agent_id"), ids.model(s("epic"))
 	case "sequence", "sequence_rm":
 		r.Kind = "sequence"
